@@ -77,7 +77,7 @@ def _check_pixel(what, x, out, nd, win, dtype):
         tol_ok = False
         if ref["fittable"] is True and dtype != "float32":
             idx = ref["index"][usable][order]
-            tau = refs.spi_tie_width(idx, ref["alpha"])
+            tau = refs.spi_tie_width(idx, ref["alpha"], ref.get("alpha_rel_tol"))
             tol_ok = (oo[k] - oo[k + 1] == 1) and abs(idx[k + 1] - idx[k]) <= 2 * max(tau[k], tau[k + 1])
         req(tol_ok, "%s: a wetter observation receives a smaller index: x=%r -> %d but x=%r -> %d %s" % (
             what, float(xo[k]), int(oo[k]), float(xo[k + 1]), int(oo[k + 1]), desc), what + " ordering violated")
